@@ -5,10 +5,11 @@ Property theorems about `FileFilter.create` (model of src/file_filter.rs 39-109)
 Helper lemmas: GrcovModel/Lemmas/FileFilter.lean.
 
 Quantification: all option subsets `o`, all source texts – represented by the list `ms` of the
-six regex match bits of every source line (regex matching and line splitting are trusted
-parameters, computed independently by the harness; any placement of markers, nested, repeated,
-unterminated, start and stop on one line, overlapping line and branch regions, is some `ms`) –
-all line numbers `n` and all coverage records `c`. The hypothesis `ms.length ≤ U32MAX` is the
+six regex match bits of every piece of `file.split('\n')` (regex matching is a trusted parameter,
+computed independently by the harness; any placement of markers, nested, repeated, unterminated,
+start and stop on one line, overlapping line and branch regions, is some `ms`) – all line numbers
+`n` and all coverage records `c`. Line splitting is modelled (`splitLF`, `stripCR`, `sourceBits`,
+`createSrc` with the six regexes as predicates): section "Line splitting" below. The hypothesis `ms.length ≤ U32MAX` is the
 type of the line number (`(number + 1) as u32`): a source of 2^32 or more lines is out of scope.
 
 Status. Every statement is proved at full strength, with no guard: `C16_lines`, `C16_branches`
@@ -16,6 +17,15 @@ Status. Every statement is proved at full strength, with no guard: `C16_lines`, 
 three options and three marker bits), the coverage effect of the filter list, nothing else
 changes, no options / unreadable source ⇒ identity, only lines of the file are touched, each at
 most once and in order.
+The piece after a final newline. `split('\n')` yields one more piece than the text has lines when
+the text ends with LF (and one empty piece for the empty text); the pass numbers it `n+1` and
+treats it like an empty source line (`C16_phantom_line`): a coverage key `n+1` – data about a line
+the source does not have – is removed iff an empty line would be (marker matching the empty
+string, or a region left open at the end of the text). "Only lines of the file are touched"
+therefore holds for the PIECES (`C16_only_source_lines`, `C16_only_pieces`) and, read strictly
+(lines as every other reader counts them, `realLines`), is false by exactly this one key
+(`C16_only_real_lines_false`, `…_partial` for texts without final newline; finding candidate
+C16-line-after-final-newline).
 History: on the tree before /repo commit c7806a2 the first three were false (a single-line marker
 on a line lying only in a region of the other kind was ignored: the region flags were tested
 first and the single-line markers were an `else` of both flags). `witnessA` / `witnessB` below
@@ -108,8 +118,10 @@ theorem C16_functions_unchanged (o : Opts) (r : Bool) (ms : List Bits) (c : Cov)
     (rewrite o r ms c).functions = c.functions :=
   applyFilters_functions _ c
 
-/-- Only lines of the file are touched: a key that is 0 or beyond the last line is never
-removed, whatever the markers (an unterminated region ends with the file). -/
+/-- Only pieces of the file are touched: a key that is 0 or beyond the number of pieces of
+`split('\n')` is never removed, whatever the markers (an unterminated region ends with the file).
+`ms.length` is the number of PIECES: for a text that ends with a line feed that is one more than
+its number of lines – see `C16_phantom_line`, `C16_only_real_lines_false`. -/
 theorem C16_only_source_lines (o : Opts) (r : Bool) (ms : List Bits) (n : Nat)
     (hlen : ms.length ≤ U32MAX)
     (h : removesLine (create o r ms) n ∨ removesBranch (create o r ms) n) :
@@ -144,6 +156,93 @@ the region it (re)opens; the line after an open region's stop line is outside. -
 theorem C16_region_step (start stop : Nat → Prop) (n : Nat) :
     inRegion start stop (n + 1) ↔ start (n + 1) ∨ (inRegion start stop n ∧ ¬ stop (n + 1)) :=
   inRegion_succ start stop n
+
+/-! ## Line splitting, and the piece after a final newline -/
+
+/-- `file.split('\n')` on a text that ends with a line feed: the pieces of the text before that
+line feed, then one empty piece; the match bits follow; the text has as many lines as the part
+before the final line feed has pieces. -/
+theorem C16_final_newline_pieces (rx : Rx) (body : List Nat) :
+    splitLF (body ++ [10]) = splitLF body ++ [[]] ∧
+    sourceBits rx (body ++ [10]) = sourceBits rx body ++ [rx.bits []] ∧
+    realLines (body ++ [10]) = (sourceBits rx body).length := by
+  refine ⟨splitLF_snoc_lf body, sourceBits_snoc_lf rx body, ?_⟩
+  rw [realLines_snoc_lf, sourceBits_length]
+
+/-- For a source that ends with LF (`body ++ "\n"`, `n` = number of its lines): the final newline
+changes nothing for the lines `1..n`, and key `n+1` is treated as an empty source line – its line
+data is removed iff the line marker matches the empty string, or the start marker does, or the
+line region is still open after line `n` and the stop marker does not match the empty string; the
+same for branch data with the branch markers. -/
+theorem C16_phantom_line (o : Opts) (rx : Rx) (body : List Nat)
+    (hlen : (sourceBits rx body).length + 1 ≤ U32MAX) :
+    (∀ n, n ≤ (sourceBits rx body).length →
+      (removesLine (createSrc o rx (some (body ++ [10]))) n
+        ↔ removesLine (createSrc o rx (some body)) n) ∧
+      (removesBranch (createSrc o rx (some (body ++ [10]))) n
+        ↔ removesBranch (createSrc o rx (some body)) n)) ∧
+    (removesLine (createSrc o rx (some (body ++ [10]))) ((sourceBits rx body).length + 1) ↔
+      hit o.line (rx.line []) = true ∨ hit o.start (rx.start []) = true ∨
+        (inLineRegion o (sourceBits rx body) (sourceBits rx body).length
+          ∧ hit o.stop (rx.stop []) = false)) ∧
+    (removesBranch (createSrc o rx (some (body ++ [10]))) ((sourceBits rx body).length + 1) ↔
+      hit o.brLine (rx.brLine []) = true ∨ hit o.brStart (rx.brStart []) = true ∨
+        (inBrRegion o (sourceBits rx body) (sourceBits rx body).length
+          ∧ hit o.brStop (rx.brStop []) = false)) := by
+  simp only [createSrc, sourceBits_snoc_lf]
+  exact ⟨fun n hn => ⟨removesLine_append_le o _ _ n hlen hn, removesBranch_append_le o _ _ n hlen hn⟩,
+    removesLine_append_last o _ _ hlen, removesBranch_append_last o _ _ hlen⟩
+
+/-- With markers that do not match an empty line (every literal marker): key `n+1` is removed iff
+the region is left open at the end of the text. -/
+theorem C16_phantom_line_open_region (o : Opts) (rx : Rx) (body : List Nat)
+    (hlen : (sourceBits rx body).length + 1 ≤ U32MAX)
+    (he : rx.bits [] = ⟨false, false, false, false, false, false⟩) :
+    (removesLine (createSrc o rx (some (body ++ [10]))) ((sourceBits rx body).length + 1) ↔
+      inLineRegion o (sourceBits rx body) (sourceBits rx body).length) ∧
+    (removesBranch (createSrc o rx (some (body ++ [10]))) ((sourceBits rx body).length + 1) ↔
+      inBrRegion o (sourceBits rx body) (sourceBits rx body).length) := by
+  have h := C16_phantom_line o rx body hlen
+  simp only [Rx.bits, Bits.mk.injEq] at he
+  obtain ⟨e1, e2, e3, e4, e5, e6⟩ := he
+  rw [h.2.1, h.2.2, e1, e2, e3, e4, e5, e6]
+  simp [hit]
+
+/-- On source level: whatever is removed is a piece of the source, i.e. at most one past its last
+line; nothing is removed when the source cannot be read. -/
+theorem C16_only_pieces (o : Opts) (rx : Rx) (src : Option (List Nat)) (n : Nat)
+    (hlen : ∀ s, src = some s → (splitLF s).length ≤ U32MAX)
+    (h : removesLine (createSrc o rx src) n ∨ removesBranch (createSrc o rx src) n) :
+    ∃ s, src = some s ∧ 1 ≤ n ∧ n ≤ realLines s + 1 :=
+  removes_range_src o rx src n hlen h
+
+/-- The strict reading of "nothing else in the file's data changes": only keys that are lines of
+the source (as every other reader counts them) are ever removed. -/
+def C16_only_real_lines_stmt : Prop :=
+  ∀ (o : Opts) (rx : Rx) (src : List Nat) (n : Nat), (splitLF src).length ≤ U32MAX →
+    removesLine (createSrc o rx (some src)) n ∨ removesBranch (createSrc o rx (some src)) n →
+    1 ≤ n ∧ n ≤ realLines src
+
+/-- the start marker `S`, nothing else configured -/
+def witnessRx : Rx :=
+  ⟨fun _ => false, fun l => l == [83], fun _ => false, fun _ => false, fun _ => false, fun _ => false⟩
+
+/-- It is false of the code: the one-line source `S\n` with `--excl-start S` removes key 2. -/
+theorem C16_only_real_lines_false : ¬ C16_only_real_lines_stmt := by
+  intro h
+  have := h ⟨false, true, false, false, false, false⟩ witnessRx [83, 10] 2 (by decide)
+    (Or.inl (by decide))
+  revert this
+  decide
+
+/-- It holds for every text that does not end with a line feed (and is not empty): exactly the
+guard the witness violates. -/
+theorem C16_only_real_lines_partial (o : Opts) (rx : Rx) (src : List Nat) (n : Nat)
+    (hlen : (splitLF src).length ≤ U32MAX) (h1 : src ≠ []) (h2 : src.getLast? ≠ some 10)
+    (h : removesLine (createSrc o rx (some src)) n ∨ removesBranch (createSrc o rx (some src)) n) :
+    1 ≤ n ∧ n ≤ realLines src := by
+  rw [realLines_no_final_lf src h1 h2, ← sourceBits_length rx]
+  exact removes_range o (sourceBits rx src) (by rw [sourceBits_length]; exact hlen) true n h
 
 /-! ## Non-vacuity: concrete sources that satisfy the hypotheses and exercise every branch -/
 
@@ -212,5 +311,18 @@ example : rewrite allOpts true exSrc
         functions := [([102], ⟨1, true⟩)] }
     = { lines := [(5, 0), (10, 7)], branches := [(1, [true]), (10, [true])],
         functions := [([102], ⟨1, true⟩)] } := by decide
+
+/-- line splitting: `a\r\n` + `b` + LF + LF  is  `a`, `b`, ``, `` (CR of CRLF removed, two empty
+pieces); `S\n` with `--excl-start S`: `L1,L2` – key 2 is the piece after the final newline; without
+the final newline: `L1` -/
+example : (splitLF [97, 13, 10, 98, 10, 10]).map stripCR = [[97], [98], [], []] ∧
+    realLines [97, 13, 10, 98, 10, 10] = 3 ∧ realLines [] = 0 ∧ realLines [97] = 1 ∧
+    createSrc ⟨false, true, false, false, false, false⟩ witnessRx (some [83, 10]) = [.line 1, .line 2] ∧
+    createSrc ⟨false, true, false, false, false, false⟩ witnessRx (some [83]) = [.line 1] := by
+  decide
+
+/-- the hypotheses of `C16_phantom_line_open_region` hold for the witness -/
+example : (sourceBits witnessRx [83]).length + 1 ≤ U32MAX ∧
+    witnessRx.bits [] = ⟨false, false, false, false, false, false⟩ := by decide
 
 end Grcov.Props.C16
